@@ -1030,10 +1030,14 @@ def scenario_p2p_reinvite(rng):
     out = _preamble(rng)
     if rng.chance(1, 2):
         out.append("sub S2 me")
-    out.extend(["sub S1 U2", "sub S2 U1", "pub S2 U1 R1"])
+    out.extend(["sub S1 U2", "sub S2 U1", "pub S2 U1 R1", "pub S1 U2 R0", "pub S1 U2 R00"])
     out.append(rng.choice(["leave S2 U1 unsub=1", "deltopic S2 U1", "delsub S1 U2 U2"]))
     if rng.chance(1, 3):
         out.append("pub S1 U2 R2")
+    if rng.chance(1, 2):
+        # the one who is gone still sends notes (a receipt needs no attachment: the hub hands it to the loaded topic)
+        for _ in range(1 + rng.below(2)):
+            out.append(f"note {rng.choice(['S2', 'S5'])} U1 {rng.choice(['recv', 'recv', 'read', 'kp'])} {rng.choice([0, 2, 3, 3])}")
     out.append("setsub S1 U2 user=U2" + rng.choice(["", " mode=JRWPA", " mode=JRWA", " mode=JRPA"]))
     for _ in range(1 + rng.below(3)):
         out.append(rng.choice(["pub S1 U2 R3", "pub S1 U2 R4 noecho=1", "get S1 U2 sub", "note S1 U2 read 1", "pub S4 U2 R5"]))
